@@ -30,7 +30,7 @@ ASSUMPTIONS = [
     "Wire orders always contain every wire of the sentence (a missing wire is a documented ValueError).",
     "Only numpy scalars/arrays are used as coefficients (autodiff interfaces are out of scope).",
 ]
-BUDGET = {"quick": {"examples": 1200}, "thorough": {"examples": 60000, "shards": 16}}
+BUDGET = {"quick": {"examples": 800}, "thorough": {"examples": 60000, "shards": 16}}
 SHRINK_LISTS = ("a", "b", "w", "extra")
 TOL = 1e-10
 
